@@ -272,12 +272,17 @@ def oracle(ctx):
                 ctx.violation("across_track_sense", dict(descr, fx=abs(fx)), float(vr @ right),
                               "positive component to the right of the velocity", site="ScanGeometry.vectors")
         # lon/lat/alt of the pixels: terminates, alt within 10 m of zero on hits, NaN exactly on misses
+        pix_before = np.array(pix, copy=True)
         try:
             lla = with_watchdog(20, lambda: geoloc.get_lonlatalt(pix, times))
         except Timeout:
             ctx.violation("lonlatalt_hangs", dict(descr, fovs=fovs.tolist(), rpy=rpy, nan_pixels=int(np.isnan(pix[0]).sum())),
                           "no result within 20 s", "terminates", site="geoloc.get_lonlatalt")
             continue
+        if not np.array_equal(pix, pix_before, equal_nan=True):
+            ctx.violation("pixels_modified_by_conversion", dict(descr, fovs=fovs.tolist(), rpy=rpy), np.asarray(pix)[:, 0].tolist(),
+                          "the pixel array is left as compute_pixels returned it: %r" % pix_before[:, 0].tolist(), site="geoloc.get_lonlatalt")
+            pix = pix_before
         for j in range(k):
             ctx.count("eval_oracle_lla")
             miss = bool(np.isnan(pix[0, j]))
@@ -434,7 +439,12 @@ def replay(ctx, case):
                 if abs(eq - 1) > 1e-9 or np.linalg.norm(px - ref) > 1e-6:
                     bad += 1
     try:
+        keep = np.array(pix, copy=True)
         lla = with_watchdog(20, lambda: geoloc.get_lonlatalt(pix, times))
+        if not np.array_equal(pix, keep, equal_nan=True):
+            print("get_lonlatalt modified the pixel array")
+            bad += 1
+            pix = keep
         for j in range(k):
             miss = bool(np.isnan(pix[0, j]))
             alt = float(lla[2][j])
